@@ -32,6 +32,7 @@ type Shape struct {
 	Want    []Msg  // fetch: the records encoded in Set
 	Got     []Msg  // fetch: records delivered by the batch
 	Deliver string // fetch: "-" | "prefix" | "notprefix"
+	ReadN   int    // fetch: 0 = read the batch to its end; n > 0 = read at most n records, then Close; -1 = Close at once
 }
 
 type Msg struct {
@@ -233,7 +234,12 @@ var Ops = []*Op{
 			}
 			b := c.ReadBatchWith(kafka.ReadBatchConfig{MinBytes: 1, MaxBytes: 1 << 20})
 			var rerr error
+			early := false
 			for {
+				if sh.ReadN < 0 || (sh.ReadN > 0 && len(sh.Got) >= sh.ReadN) {
+					early = true // the caller stops here (Conn.ReadMessage / Conn.Read do exactly this after one record)
+					break
+				}
 				m, err := b.ReadMessage()
 				if err != nil {
 					rerr = err
@@ -255,6 +261,9 @@ var Ops = []*Op{
 						sh.Deliver = "notprefix"
 					}
 				}
+			}
+			if early {
+				return "", cerr
 			}
 			if errors.Is(rerr, io.EOF) && cerr == nil {
 				if len(sh.Got) != len(sh.Want) {
@@ -421,6 +430,11 @@ func Outcome(err error) string {
 // records of a set from 0; for format 2 the base offset of each batch (outside the CRC) is patched so that the set
 // starts at `base`; a format 1 set is a single batch starting at 0.  The base actually used is returned.
 func RecordSet(r *rand.Rand, magic int8, base int64, n int, batches int, attrs protocol.Attributes) ([]byte, []Msg, int64, error) {
+	return RecordSetSized(r, magic, base, n, batches, attrs, 0)
+}
+
+// RecordSetSized is RecordSet with values of valLen random (incompressible) bytes when valLen > 0.
+func RecordSetSized(r *rand.Rand, magic int8, base int64, n int, batches int, attrs protocol.Attributes, valLen int) ([]byte, []Msg, int64, error) {
 	var out bytes.Buffer
 	var msgs []Msg
 	if batches < 1 || magic < 2 {
@@ -442,6 +456,11 @@ func RecordSet(r *rand.Rand, magic int8, base int64, n int, batches int, attrs p
 		recs := make([]protocol.Record, k)
 		for i := range recs {
 			key, val := str(r, 3), "v"+str(r, 8)
+			if valLen > 0 {
+				bv := make([]byte, valLen)
+				r.Read(bv)
+				val = string(bv)
+			}
 			recs[i] = protocol.Record{Offset: off, Time: ts(1000 + off), Key: protocol.NewBytes([]byte(key)), Value: protocol.NewBytes([]byte(val))}
 			if key == "" {
 				recs[i].Key = nil
